@@ -2,8 +2,11 @@ package main
 
 import (
 	"fmt"
+	"os"
 	"runtime"
+	"sort"
 	"strings"
+	"time"
 
 	btpb "cloud.google.com/go/bigtable/apiv2/bigtablepb"
 
@@ -156,4 +159,57 @@ func sampleInvariant(cl btpb.BigtableClient, name string, stored []string) (stri
 		}
 	}
 	return "", keys
+}
+
+// hangVerdict is called when a request has been outstanding for the whole request watchdog. In-process checks: the
+// goroutine dump of this process is taken; if it shows a handler of the emulator that has been blocked on a mutex,
+// channel or select for minutes, the run reports a violation (the requests of the property must be answered) with those
+// stacks and ends - every further request to a stuck server would only wait for the same watchdog. If no such handler is
+// in the dump (a slow machine, or the emulator runs in a child process), the run ends INCONCLUSIVE. Never returns.
+func hangVerdict(run *common.Run) {
+	// handler goroutines of the emulator that are not runnable, by goroutine id -> (state, stack head)
+	snapshot := func() map[string][2]string {
+		buf := make([]byte, 16<<20)
+		buf = buf[:runtime.Stack(buf, true)]
+		if f := os.Getenv("VERIF_HANGDUMP"); f != "" {
+			_ = os.WriteFile(f, buf, 0o666)
+		}
+		out := map[string][2]string{}
+		for _, g := range strings.Split(string(buf), "\n\n") {
+			head, _, _ := strings.Cut(g, "\n")
+			id, state, ok := strings.Cut(strings.TrimPrefix(head, "goroutine "), " [")
+			if !ok || !strings.Contains(g, "bttest.(*server).") {
+				continue
+			}
+			if strings.HasPrefix(state, "running") || strings.HasPrefix(state, "runnable") || strings.HasPrefix(state, "syscall") || strings.HasPrefix(state, "IO wait") {
+				continue
+			}
+			lines := strings.Split(g, "\n")
+			state, _, _ = strings.Cut(state, ",")
+			state = strings.TrimSuffix(state, "]:")
+			// (the header line carries the waiting time, which moves on between two dumps)
+			out[id] = [2]string{state, "goroutine " + id + " [" + state + "]\n" + strings.Join(lines[1:min(len(lines), 14)], "\n")}
+		}
+		return out
+	}
+	first := snapshot()
+	time.Sleep(3 * time.Second)
+	second := snapshot()
+	var blocked []string
+	for id, a := range first {
+		if b, ok := second[id]; ok && a[0] == b[0] && a[1] == b[1] {
+			blocked = append(blocked, a[1])
+		}
+	}
+	sort.Strings(blocked)
+	run.Count("emulator_handlers_blocked_when_the_request_watchdog_fired", int64(len(blocked)))
+	if len(blocked) > 0 {
+		head, _, _ := strings.Cut(blocked[0], "\n")
+		run.Violation("hang", 0, fmt.Sprintf("a request was not answered within %s; %d handler goroutine(s) of the emulator are blocked (same state and stack in two dumps taken 3 s apart; first: %s); their stacks are in the detail", drive.RPCTimeout, len(blocked), head),
+			map[string]any{"emulator_handlers_blocked": blocked[:min(len(blocked), 8)]})
+	} else {
+		run.Blind(fmt.Sprintf("a request was outstanding for %s but no handler of the emulator in this process is blocked: machine too slow, or the emulator under test runs in a child process", drive.RPCTimeout))
+	}
+	run.Finish()
+	os.Exit(4)
 }
